@@ -424,10 +424,89 @@ def run_case(args):
         out.append(("%s: execution [%s]" % (tag, str(ex)[:80]), False, "%s: %s" % (type(ex).__name__, ex), time.time() - t0))
     return out
 
+def bookkeeping_job(N=5):
+    mf = units.free_function("src/fitter/cholesky_solve.c", "modify_factor_p")
+    pre = r'''
+#include <stddef.h>
+#include <stdbool.h>
+#include <stdlib.h>
+typedef long clock_t;
+#define CLOCKS_PER_SEC 1000000
+typedef struct cholmod_common_struct { int status; } cholmod_common;
+typedef struct cholmod_sparse_struct { size_t nrow, ncol; int stype; } cholmod_sparse;
+typedef struct cholmod_factor_struct { size_t n; void* Perm; } cholmod_factor;
+#define VP_N %d
+clock_t clock(void) { return 0; }
+int printf(const char* f, ...) { return 0; }
+/* ghost record of what cholmod is asked to do */
+int vp_del[VP_N], vp_add[VP_N], vp_scratch, vp_recomputed; long vp_colF[VP_N]; long vp_ncolF[VP_N];
+cholmod_sparse vp_col, vp_sub; cholmod_factor vp_fac; long vp_perm[VP_N];
+int cholmod_l_rowdel(size_t k, cholmod_sparse* R, cholmod_factor* L, cholmod_common* c) { __CPROVER_assert(k < VP_N && L != NULL, "rowdel inside the factor"); vp_del[k]++; return 1; }
+int cholmod_l_rowadd(size_t k, cholmod_sparse* R, cholmod_factor* L, cholmod_common* c) { __CPROVER_assert(k < VP_N && L != NULL && R == &vp_col, "rowadd inside the factor, with the column just extracted"); vp_add[k]++; return 1; }
+long vp_last_k; long vp_last_nF;
+cholmod_sparse* get_column(cholmod_sparse* A, long k, long* iPerm, long* Fset, long nF, cholmod_common* c) { vp_last_k = k; vp_last_nF = nF; __CPROVER_assert(nF >= 1 && Fset[nF - 1] == k, "the new column is restricted to a free set that already contains it"); return &vp_col; }
+int cholmod_l_free_sparse(cholmod_sparse** A, cholmod_common* c) { *A = NULL; return 1; }
+int cholmod_l_free_factor(cholmod_factor** L, cholmod_common* c) { *L = NULL; return 1; }
+cholmod_factor* cholmod_l_analyze(cholmod_sparse* A, cholmod_common* c) { vp_fac.n = A->nrow; vp_fac.Perm = vp_perm; return &vp_fac; }
+int cholmod_l_factorize(cholmod_sparse* A, cholmod_factor* L, cholmod_common* c) { vp_scratch++; return 1; }
+long vp_subF[VP_N]; long vp_subn;
+cholmod_sparse* cholmod_l_submatrix(cholmod_sparse* A, long* r, long nr, long* cset, long nc, int v, int s, cholmod_common* c) {
+	__CPROVER_assert(A->stype == 0 && r == cset && nr == nc && nr >= 0 && nr <= VP_N, "submatrix of the unsymmetric view, same rows and columns"); vp_subn = nr;
+	for (long q = 0; q < nr; q++) vp_subF[q] = r[q];
+	vp_sub.nrow = nr; vp_sub.ncol = nc; vp_sub.stype = 0; return &vp_sub; }
+long vp_recF[VP_N]; long vp_recn;
+cholmod_factor* recompute_factor(cholmod_sparse* A, cholmod_factor* L, long* iPerm, long* F, unsigned long nF, cholmod_common* c) {
+	__CPROVER_assert(L != NULL && iPerm != NULL && nF <= VP_N, "recompute_factor arguments"); vp_recomputed++; vp_recn = nF; for (unsigned long q = 0; q < nF; q++) vp_recF[q] = F[q]; return L; }
+/* qsort: ascending sort of long elements (the comparator of the source reads them through int pointers: values < 2^31) */
+void qsort(void* base, size_t n, size_t sz, int (*cmp)(const void*, const void*)) { long* a = base; __CPROVER_assert(sz == sizeof(long) && n <= VP_N, "qsort of long elements");
+	for (size_t i = 1; i < n; i++) { long v = a[i]; size_t j = i; while (j > 0 && a[j - 1] > v) { a[j] = a[j - 1]; j--; } a[j] = v; } }
+static int intcmp(const void* xa, const void* xb);
+cholmod_factor* modify_factor_p(cholmod_sparse* A, cholmod_factor* L, long* F, long* nF_, long* G, long* nG_, long* H1, long* nH1_, long* H2, long* nH2_, bool update, bool verbose, cholmod_common* c);
+static int intcmp(const void* xa, const void* xb) { return 0; }
+''' % N
+    har = r'''
+void h_mf(void) {
+	long n; __CPROVER_assume(n >= 1 && n <= VP_N);
+	bool inF[VP_N], sel[VP_N];
+	long F[VP_N], G[VP_N], H1[VP_N], H2[VP_N];
+	long nF = 0, nG = 0, nH1 = 0, nH2 = 0;
+	for (long i = 0; i < n; i++) { if (inF[i]) { F[nF++] = i; if (sel[i]) H1[nH1++] = i; } else { G[nG++] = i; if (sel[i]) H2[nH2++] = i; } }
+	for (long i = 0; i < VP_N; i++) { vp_del[i] = 0; vp_add[i] = 0; vp_perm[i] = i; }
+	cholmod_sparse A; A.nrow = n; A.ncol = n; A.stype = 1;
+	cholmod_factor L0; bool haveL, full, perm; cholmod_factor* L = NULL;
+	if (haveL) { L = &L0; L0.n = full ? n : nF; L0.Perm = perm ? vp_perm : NULL; }
+	bool update; cholmod_common c;
+	bool ready = haveL && (long)L0.n == n;   /* update_ready of the source: the factor covers the whole matrix */
+	cholmod_factor* R = modify_factor_p(&A, L, F, &nF, G, &nG, H1, &nH1, H2, &nH2, update, 0, &c);
+	/* postconditions */
+	__CPROVER_assert(nH1 == 0 && nH2 == 0, "pending changes are consumed");
+	__CPROVER_assert(nF + nG == n && nF >= 0 && nG >= 0, "F and G still partition the coefficients (sizes)");
+	long cF = 0, cG = 0;
+	for (long i = 0; i < n; i++) { bool wantF = inF[i] ? !sel[i] : sel[i];
+		if (wantF) { __CPROVER_assert(cF < nF && F[cF] == i, "F == (F minus H1) plus H2, ascending"); cF++; }
+		else { __CPROVER_assert(cG < nG && G[cG] == i, "G == (G minus H2) plus H1, ascending"); cG++; }
+		if (update && ready) { __CPROVER_assert(vp_del[i] == (inF[i] && sel[i]), "exactly the rows of H1 are deleted from the factor"); __CPROVER_assert(vp_add[i] == (!inF[i] && sel[i]), "exactly the rows of H2 are added to the factor"); }
+		else __CPROVER_assert(vp_del[i] == 0 && vp_add[i] == 0, "no single-row update of a factor that does not cover the whole matrix"); }
+	__CPROVER_assert(cF == nF && cG == nG, "nothing else in F or G");
+	__CPROVER_assert(A.stype == 1, "the matrix is handed back declared symmetric");
+	if (!update) { __CPROVER_assert(vp_scratch == 1 && vp_subn == nF && R == &vp_fac, "factorised from scratch on the new free set"); for (long q = 0; q < nF; q++) __CPROVER_assert(vp_subF[q] == F[q], "the from-scratch factor is that of A[F,F]"); }
+	if (update && !ready) { __CPROVER_assert(vp_recomputed == 1 && vp_recn == nF && R == &vp_fac, "a factor of the whole matrix is recomputed for the new free set"); for (long q = 0; q < nF; q++) __CPROVER_assert(vp_recF[q] == F[q], "recompute_factor gets the new free set"); }
+	if (update && ready) __CPROVER_assert(R == L && vp_scratch == 0 && vp_recomputed == 0, "the updated factor is returned");
+	__CPROVER_assert(0, "canary: reachable after the call");
+}
+'''
+    tu = pre + mf.text(None) + har
+    job = vlib.Job("C11-modify_factor_p-bookkeeping", tu, "h_mf", enforce=None, loop_contracts=False, expect_fail=[r"^h_mf\.assertion\.15$"], must_have=[r"h_mf\.assertion", r"\.unwind\."],
+                        cbmc_flags=["--unwind", str(N + 2), "--unwinding-assertions", "--no-malloc-may-fail", "--object-bits", "12"], timeout=900, split=8, backend="cbmc-sat-bounded-unwinding",
+                        bounded="every partition of at most %d coefficients into F and G, every pair of subsets H1 of F and H2 of G, update / no update, no factor / factor of the free set / factor of the whole matrix, with / without permutation; loops unwound %d times with unwinding assertions" % (N, N + 2),
+                        note="set bookkeeping of modify_factor_p as pre/postconditions around the real function; cholmod and recompute_factor as recording stubs")
+    job.check_flags = ["--bounds-check", "--pointer-check"]
+    return mf, job
+
 def main():
     global PROG
     thorough = vlib.TIER == "thorough"
-    rep = vlib.Report("C11")
+    rep = vlib.Report("C11", level="exploration")
     prog, params, fns = build(); PROG = (prog, params)
     for f in fns: rep.functions.append(f.info())
     sysl = systems(thorough)
@@ -498,6 +577,9 @@ def main():
         for o in nat:
             if not o[1]: rep.add_violation("C11-native", re.sub(r"[^\w\-\+\.\[\],:#]", "_", o[0])[:200], o[0] + ": " + o[2], trace=o[2], replay=replay("%s [%s," % o[3]))
     else: rep.undecided.append("the native harness did not build")
+    # ---- E1 (CBMC, bounded by unwinding): the set bookkeeping of modify_factor_p for EVERY configuration of at most N coefficients
+    mfun, mjob = bookkeeping_job(6 if thorough else 5)
+    vlib.run_jobs([mjob], 1); rep.add_jobs([mjob])
     book = [o[0] for r in res for o in r if "O0 bookkeeping" in o[0]]
     tot = {}
     for s in book:
